@@ -129,16 +129,61 @@ let show (o : xop) (b : xobs) (x : xdb) : string =
 (* the buffers the copy loop offers: the result does not depend on them (restore_reader_independent) *)
 let caps = let c = nat_of_int 32767 in fun _ -> c
 
+(* snapshots through a path template (Db/SnapPath.v):
+     snapp <t|d> <template|-> <root> <date> <time> <dir> <file> <dbpath> <-|g|d> <kind> [upd arguments]
+   root: the directory the harness works in (no influence; it lets a replay re-spell absolute templates);
+   g: a file of other content exists at the expanded path (no influence), d: a directory does (the call fails) *)
+let parse_kind () =
+  match next () with
+  | "plain" -> SKPlain
+  | "view" -> SKInView
+  | "upd" -> let c = next_int () = 1 in let b = parse_wops () in let a = parse_wops () in SKInUpdate (b, a, c)
+  | s -> failwith ("bad snap kind " ^ s)
+
+let parse_pop () : pop =
+  match next () with
+  | "snapp" ->
+      let flag = next () in
+      let tpl = bytes_of_hex (next ()) in
+      let _root = next () in
+      let date = bytes_of_hex (next ()) in
+      let time = bytes_of_hex (next ()) in
+      let dir = bytes_of_hex (next ()) in
+      let file = bytes_of_hex (next ()) in
+      let path = bytes_of_hex (next ()) in
+      let blocked = (match next () with "d" -> true | _ -> false) in
+      let k = parse_kind () in
+      let e = { e_date = date; e_time = time; e_dir = dir; e_file = file; e_path = path } in
+      PSnap (e, (if flag = "d" then TDefault else TGiven tpl), blocked, k)
+  | "open" -> let _ = next () in POpen
+  | _ -> decr pos; PX (parse_xop ())
+
+let pshow (o : pop) (b : pobs) (p : pdb) : string =
+  let d = p.px.base in
+  let l = " L[" ^ dump d.live ^ "]" in
+  match b, o with
+  | PoX xb, PX xo -> show xo xb p.px
+  | PoSnap (path, id), PSnap (e, t, _, _) ->
+      "snap " ^ hex_of_bytes id
+      ^ (match t with TDefault -> " D[" ^ hex_of_bytes (default_path e) ^ "]" | TGiven _ -> "")
+      ^ " P[" ^ hex_of_bytes path ^ "] W[1] X[-] F[" ^ dump (last d.files) ^ "]" ^ l
+  | PoSnapFailed, PSnap (e, t, _, _) ->
+      "snap failed"
+      ^ (match t with TDefault -> " D[" ^ hex_of_bytes (default_path e) ^ "]" | TGiven _ -> "")
+      ^ " P[-] W[0] X[-]" ^ l
+  | PoOpen, _ -> "open" ^ l
+  | _, _ -> "?" ^ l
+
 let () =
   iter_lines (fun line ->
     match split_ws line with
     | "H" :: rest ->
         toks := Array.of_list rest; pos := 0;
         let n = next_int () in
-        let rec go k acc = if k = 0 then List.rev acc else let o = parse_xop () in go (k - 1) (o :: acc) in
+        let rec go k acc = if k = 0 then List.rev acc else let o = parse_pop () in go (k - 1) (o :: acc) in
         let ops = go n [] in
-        let res = xrun_obs caps empty_xdb ops in
-        print_endline ("H " ^ String.concat " | " (List.map2 (fun o (b, x) -> show o b x) ops res))
+        let res = prun_obs caps empty_pdb ops in
+        print_endline ("H " ^ String.concat " | " (List.map2 (fun o (b, x) -> pshow o b x) ops res))
     | "R" :: _ -> print_endline "R ok"
     | [] -> ()
     | _ -> print_endline "?")
